@@ -357,6 +357,28 @@ META = {
         ],
         run_cap_s=900, shrink_tests=10, shrink_s=300,
     ),
+    "C04": _m(
+        "S", "exploration", (15, 1200), (1200, 3400),
+        "Each run = one exact-draw invariance experiment: per chain theta_0 ~ prior and y ~ p(y | theta_0) are drawn by the simulator's own "
+        "numpy sampler, so (theta_0, y) is an exact joint draw and theta_0 an exact posterior draw given y; (theta_0, y) is put into the "
+        "per-chain model state, k in {1, 3, 10, 25} transitions of the kernel (sequence) under test run in burn-in / posterior epochs "
+        "(tuning fixed) in 8192-16384 independent chains, and the law of (theta_k, y) is compared with that of (theta_0, y). The 15 slots "
+        "cycle through RW, MH (asymmetric and independence proposals with declared corrections), IWLS (Hessian and user information), HMC, "
+        "NUTS, a hand-written conjugate Gibbs kernel, sequences of 2-3 kernels over disjoint blocks on Gaussian / logistic / Poisson "
+        "regressions (dict and Liesel graph versions), and NUTS / HMC / IWLS+RW / RW+Gibbs on a Liesel location-scale model whose variance "
+        "is sampled through an Exp-transformed variable. Non-trivial = transitions executed; distinct = distinct configuration.",
+        "kernel transitions x chains",
+        "distinct configurations (kernel slot, family, dimension, model kind, step size, k, schedule, seed)",
+        ["all built-in kernels (NUTS, HMC, IWLS, RW, MH, Gibbs), mh_step, KernelSequence, ModelMixin.log_prob_fn, LieselInterface / DictInterface, Engine, blackjax"],
+        ["model families (float32 densities for the kernels, numpy samplers and closed forms for the oracle)", "user proposal / Gibbs functions"],
+        [
+            "no fault dimension: seeded Monte-Carlo simulation of the real engine; the alarm thresholds come from Bernstein's inequality with worst-case variance under the null, false-alarm probability <= 1e-12 per statistic for every VERIF_SEED (not a p-value)",
+            "known-law functionals: prior PIT (and exact posterior / conditional PIT for conjugate cases) through u, |u-1/2|, u^2, 10 bin indicators, products; joint functionals of (theta, y) are paired with the exact draw",
+            "a kernel that never moves is invariance-preserving and passes here (write-back is C09's business); small biases below the thresholds pass",
+            "DistReg / tau2 and finite-discrete Gibbs kernels are decided by C13, not here",
+        ],
+        run_cap_s=1200, shrink_tests=4, shrink_s=400,
+    ),
 }
 
 
@@ -371,6 +393,14 @@ NOT_APPLICABLE["C18"] = (
 )
 
 MANIFEST_TEXT = {
+    "C04": dict(
+        technique="seeded Monte-Carlo simulation of the real engine with thousands of independent chains started at exact joint draws; non-asymptotic (Bernstein) invariance tests (no fault dimension)",
+        design_ref="DESIGN.md section 4 C04, section 3 world S",
+        level_text="Exact-draw design: chains start at exact posterior draws (theta_0 ~ prior, y ~ p(y | theta_0), per-chain data), run k transitions "
+        "with fixed tuning, and bounded functionals of (theta_k, y) with exactly known expectation under invariance are tested with rigorous "
+        "Bernstein thresholds (false-alarm probability <= 1e-12 per statistic). Detects distribution shifts above the thresholds only.",
+        level_note="Trusted: numpy/scipy samplers and CDFs, blackjax. Model families and user proposal functions are stubs; every kernel, the kernel sequence, interfaces and engine are real.",
+    ),
     "C06": dict(
         technique="seeded Monte-Carlo simulation of the real kernels through the Engine; per-transition algebraic check of the recorded accept histories against float64 proposal densities (no fault dimension)",
         design_ref="DESIGN.md section 4 C06, section 3 world S",
